@@ -7,8 +7,9 @@
    coordinates, diameters and fraction_along values and for parent chains of any length.
    Axioms: the standard-library real-number axioms and functional_extensionality_dep only. *)
 From Coq Require Import List Reals.
-From LNML Require Import Model.Geom Proofs.GeomP.
-From Run Require Import Gen_C12 Inst_C12_wf Inst_C12.
+From Flocq Require Import Core.
+From LNML Require Import Model.Geom Proofs.GeomP Proofs.GeomPFloat.
+From Run Require Import Gen_C12 Inst_C12_wf Inst_C12 Inst_C12_float.
 Import ListNotations.
 Local Open Scope R_scope.
 
@@ -125,9 +126,50 @@ Theorem C12_no_division_by_zero : forall env : list R,
 Proof. exact (wf_table_safe T Inst_C12_wf.table_wf). Qed.
 Print Assumptions C12_no_division_by_zero.
 
-(* PARTIAL with respect to the property text "to floating-point rounding": the statements above are exact over the
-   reals (the Python expressions read as real arithmetic); how far the binary64 evaluation of the same expressions
-   is from these values is measured on every run (<= 1e-13 relative against a 60-digit reference), not proved *)
+(* "to floating-point rounding", for length and distance_to: the SAME regenerated terms evaluated in the rounded reading
+   (every + - * is the exact operation followed by binary64 round-to-nearest-even, x**2 a rounded multiplication,
+   x**0.5 any function ph within relative error 2^-52 of the square root -- the assumption made about libm's pow) differ
+   from the real Euclidean distance by at most 6 * 2^-53 relative, for ALL coordinates whose exact differences are zero
+   or between 2^-500 and 2^500 in magnitude (no underflow / overflow of the squares). *)
+Theorem C12_float_rounding_length : forall ph : R -> R, powhalf_accurate ph -> forall p d : pt R,
+  diff_in_range (p_x p - p_x d) -> diff_in_range (p_y p - p_y d) -> diff_in_range (p_z p - p_z d) ->
+  exists Lf : R,
+    run (RndA rnd64 ph) false (g_length T) (env_seg p d) = Val Lf
+    /\ run (RndA rnd64 ph) false (g_distance T) (env_seg p d) = Val Lf
+    /\ Rabs (Lf - dist p d) <= 6 * bpow radix2 (-53) * dist p d.
+Proof. exact (table_length_error T Inst_C12_float.length_fl Inst_C12_float.distance_fl). Qed.
+Print Assumptions C12_float_rounding_length.
+
+(* the same for the frustum volume (16 * 2^-53 relative) and the frustum surface area (13 * 2^-53 relative), for
+   non-negative diameters, all quantities zero or between 2^-300 and 2^300; for the area the halved diameters must be
+   binary64 numbers (true of every binary64 diameter above the subnormal range; the radii are subtracted) and their
+   difference in range. *)
+Theorem C12_float_rounding_volume : forall ph : R -> R, powhalf_accurate ph -> forall p d : pt R, ~ coincide p d ->
+  0 <= p_d p -> 0 <= p_d d -> in_range300 (p_d p) -> in_range300 (p_d d) ->
+  in_range300 (p_x p - p_x d) -> in_range300 (p_y p - p_y d) -> in_range300 (p_z p - p_z d) ->
+  exists Vf : R,
+    run (RndA rnd64 ph) false (g_volume T) (env_seg p d) = Val Vf
+    /\ Rabs (Vf - frustum_volume (dist p d) (rad p) (rad d))
+       <= 16 * bpow radix2 (-53) * frustum_volume (dist p d) (rad p) (rad d).
+Proof. exact (table_volume_error T Inst_C12_float.volume_fl). Qed.
+Print Assumptions C12_float_rounding_volume.
+
+Theorem C12_float_rounding_area : forall ph : R -> R, powhalf_accurate ph -> forall p d : pt R, ~ coincide p d ->
+  0 <= p_d p -> 0 <= p_d d -> in_range300 (p_d p) -> in_range300 (p_d d) ->
+  is_binary64 (p_d p / 2) -> is_binary64 (p_d d / 2) -> in_range300 (p_d p / 2 - p_d d / 2) ->
+  in_range300 (p_x p - p_x d) -> in_range300 (p_y p - p_y d) -> in_range300 (p_z p - p_z d) ->
+  exists Af : R,
+    run (RndA rnd64 ph) false (g_area T) (env_seg p d) = Val Af
+    /\ Rabs (Af - frustum_area (dist p d) (rad p) (rad d))
+       <= 13 * bpow radix2 (-53) * frustum_area (dist p d) (rad p) (rad d).
+Proof. exact (table_area_error T Inst_C12_float.area_fl). Qed.
+Print Assumptions C12_float_rounding_area.
+
+(* PARTIAL with respect to the property text "to floating-point rounding": length, distance_to and the FRUSTUM volume and
+   area are covered by C12_float_rounding_length / _volume / _area.  Not proved (measured on every run, <= 1e-13
+   relative against a 60-digit reference): the SPHERE branch (4/3 pi r**3 uses libm pow(x, 3), 4 pi r**2), the cell-level
+   getters through an interpolated proximal point, inputs outside the stated ranges (underflow / overflow), and that
+   the halved diameter of a binary64 number above 2^-1021 is again binary64 (a hypothesis of the area theorem). *)
 Theorem C12_float_rounding_partial : forall p d : pt R,
   t_length T p d = ref_length false p d /\ t_volume T p d = ref_volume false p d /\ t_area T p d = ref_area false p d.
 Proof. exact (fun p d => conj (t_length_eq T Inst_C12.table_ok p d)
